@@ -1124,13 +1124,13 @@ package ast
 //@   ensures TableInv(cloneTable) && recordsKept(cloneTable) && (forall p Ref :: old(allocated(p)) ==> allocated(p))
 
 //@ func (e *RuleEntry) Clone(cloneTable) (c)
-//@   serves C09
+//@   serves C09 C16
 //@   opt alloc=1
 //@   requires e != nil
 //@   requires TableInv(cloneTable)
 //@   modifies @clonefx
 //@   ensures[C09] fresh: fresh(c) && !$blue[c]
-//@   ensures[C09] faithful: c.GrlText == e.GrlText && c.RuleName == e.RuleName && c.RuleDescription == e.RuleDescription && c.Salience == e.Salience && c.Deleted == e.Deleted && !c.Retracted
+//@   ensures[C09,C16] faithful: c.GrlText == e.GrlText && c.RuleName == e.RuleName && c.RuleDescription == e.RuleDescription && c.Salience == e.Salience && c.Deleted == e.Deleted && !c.Retracted
 //@   ensures[C09] children: (e.WhenScope == nil ==> c.WhenScope == nil) && (e.WhenScope != nil ==> has(cloneTable.Records, e.WhenScope.AstID) && c.WhenScope == imageOf(cloneTable, e.WhenScope.AstID)) && (e.ThenScope == nil ==> c.ThenScope == nil) && (e.ThenScope != nil ==> has(cloneTable.Records, e.ThenScope.AstID) && c.ThenScope == imageOf(cloneTable, e.ThenScope.AstID))
 //@   ensures[C09] tableinv: TableInv(cloneTable)
 //@   ensures[C09] recordskept: recordsKept(cloneTable)
